@@ -69,17 +69,41 @@ Row(shape, k1, m1, k2, m2) ==
   [k |-> "opt", shape |-> shape, ks |-> <<k1, m1, k2, m2>>, prog |-> prog, fns |-> Host,
    runs |-> RunSeq(prog, objs \o objs, 1, <<>>), done |-> TRUE]
 
-Init == \E sh \in {"nest2", "seq2", "first"}, k1 \in 1..NKinds, m1 \in 0..NC :
-          /\ (m1 > 0 => UsesC(k1))
-          /\ row = [k |-> "opt0", shape |-> sh, k1 |-> k1, m1 |-> m1, done |-> FALSE]
+\* ---- literals at the join of a ternary ---------------------------------------------------
+\* The arms of a ternary end in "push literal"; what follows the ternary is constant arithmetic the optimizer
+\* looks at.  The literals cover every opcode number (a byte of an operand must never be taken for an
+\* instruction) and the boundaries of the inline operand.
+JoinLits == [i \in 1..46 |-> i - 1] \o <<255, 256, 265, 521, 2313, 65534>>
+NJ == Len(JoinLits)
+JoinProg(a, b) ==
+  LET tn(x, y) == <<"tern", Ref("C1"), LitI(x), LitI(y)>> IN
+  <<Asg("r", BinE("+", tn(a, b), LitI(3))), TE(Ref("r")),
+    Asg("x", BinE("*", tn(b, a), LitI(2))), TE(Ref("x")),
+    If(BinE("==", tn(a, b), LitI(9)), <<T(7)>>),
+    Ret(<<"arr", <<Ref("r"), Ref("x"), BinE("-", tn(a, b), LitI(0)), BinE("+", LitI(1), tn(b, a))>>>>)>>
+JoinRow(a, b) ==
+  LET prog == JoinProg(a, b)
+      objs == <<<<<<"C1", B(TRUE)>>>>, <<<<"C1", B(FALSE)>>>>>> IN
+  [k |-> "opt", shape |-> "join", ks |-> <<a, b>>, prog |-> prog, fns |-> Host,
+   runs |-> RunSeq(prog, objs, 1, <<>>), done |-> TRUE]
+
+Init == \/ \E sh \in {"nest2", "seq2", "first"}, k1 \in 1..NKinds, m1 \in 0..NC :
+             /\ (m1 > 0 => UsesC(k1))
+             /\ row = [k |-> "opt0", shape |-> sh, k1 |-> k1, m1 |-> m1, done |-> FALSE]
+        \/ \E a \in 1..NJ : row = [k |-> "join0", a |-> a, done |-> FALSE]
 
 Next ==
   /\ ~row.done
-  /\ \E k2 \in 1..NKinds, m2 \in 0..NC :
-       /\ (m2 > 0 => UsesC(k2))
-       /\ (row.m1 > 0 \/ m2 > 0)                       \* at least one constant condition
-       /\ (Tier = "thorough" \/ (row.k1 + 3 * row.m1 + 5 * k2 + 7 * m2 + Seed - 1) % 6 = 0)
-       /\ row' = Row(row.shape, row.k1, row.m1, k2, m2)
+  /\ \/ /\ row.k = "join0"
+        /\ \E b \in 1..NJ :
+             /\ (Tier = "thorough" \/ (row.a + b + Seed - 1) % 3 = 0)
+             /\ row' = JoinRow(JoinLits[row.a], JoinLits[b])
+     \/ /\ row.k = "opt0"
+        /\ \E k2 \in 1..NKinds, m2 \in 0..NC :
+             /\ (m2 > 0 => UsesC(k2))
+             /\ (row.m1 > 0 \/ m2 > 0)                       \* at least one constant condition
+             /\ (Tier = "thorough" \/ (row.k1 + 3 * row.m1 + 5 * k2 + 7 * m2 + Seed - 1) % 6 = 0)
+             /\ row' = Row(row.shape, row.k1, row.m1, k2, m2)
 
 Spec == Init /\ [][Next]_vars
 
